@@ -17,7 +17,10 @@ the region holds {valid (control: dispatches), zeros, 0xFF, text, nothing, trunc
 valid with a damaged tail, offset / length past the end}, followed on the same connection by a probe request.  Each
 case runs in a forked child, so that a native abort of the server is reported as a violation of this property instead
 of taking the check down.  Oracle: the request gets a response or a typed error stream, the probe is answered, serve()
-does not raise, the process lives.
+does not raise, the process lives.  The same harness sends an INLINE, correctly typed request to a method with a
+dataclass parameter (a binary column holding an embedded IPC stream) x 14 contents of that column {valid, a stream
+without a batch, empty, garbage, truncated, two batches, zero / two rows, other schema, missing / extra field, null,
+trailing bytes, bare EOS}.
 
 Part B (not IPC): every proper prefix of a valid request and every single-byte substitution (3 values) at each
 of the first 256 offsets.  Oracle: the peer is never left waiting: after the client has sent the bytes (and,
@@ -27,6 +30,7 @@ the server answered and kept the connection, the probe must work.
 
 from __future__ import annotations
 
+import dataclasses
 import enum
 import io
 import itertools
@@ -35,6 +39,8 @@ from multiprocessing import shared_memory
 from typing import Any, Protocol
 
 import pyarrow as pa
+
+from vgi_rpc.utils import ArrowSerializableDataclass
 
 from vf.core.runner import Ctx, HarnessError
 from vf.kit import mem, prog, raw
@@ -428,8 +434,18 @@ class _Tint(enum.Enum):
     GREEN = "g"
 
 
+@dataclasses.dataclass(frozen=True)
+class _Pt(ArrowSerializableDataclass):
+    x: int
+    y: float
+
+
 class ShmSvc(Protocol):
-    """Two unary methods: one plain, one with an enum (= dictionary-encoded) parameter."""
+    """Unary methods: plain, with an enum (= dictionary-encoded) parameter, with a dataclass (= embedded IPC stream) one."""
+
+    def shape(self, p: _Pt, k: int) -> float:
+        """Use a dataclass parameter."""
+        ...
 
     def plain(self, n: int) -> int:
         """Echo."""
@@ -441,6 +457,9 @@ class ShmSvc(Protocol):
 
 
 class ShmImpl:
+    def shape(self, p: _Pt, k: int) -> float:
+        return p.x * p.y + k
+
     def plain(self, n: int) -> int:
         return n
 
@@ -455,7 +474,62 @@ def part_s_cases() -> list[dict[str, Any]]:
         "other:dict-only", "other:two-int64", "other:declared-of-the-other-method", "valid-then-garbage", "offset-past-end", "length-past-end",
         "no-length-key", "no-offset-key", "offset-not-a-number", "length-negative", "tiny-segment-8", "tiny-segment-24", "segment-size-lie",
     ]
-    return [{"part": "S", "method": m, "content": c} for m in ("plain", "tagged") for c in contents]
+    cases = [{"part": "S", "method": m, "content": c} for m in ("plain", "tagged") for c in contents]
+    # part D: an INLINE, well-framed, correctly typed request whose dataclass column (binary = an embedded IPC stream)
+    # holds each of these byte strings
+    cases += [{"part": "S", "method": "shape", "content": c} for c in D_CONTENTS]
+    return cases
+
+
+D_CONTENTS = [
+    "d:valid", "d:no-batch", "d:empty-bytes", "d:garbage", "d:schema-only-truncated", "d:two-batches", "d:zero-rows", "d:two-rows", "d:other-schema",
+    "d:missing-field", "d:extra-field", "d:null-in-field", "d:valid-plus-trailing-bytes", "d:eos-only",
+]
+
+
+def _d_value(content: str) -> bytes:
+    """Bytes for the dataclass column of ``shape``."""
+    sch = pa.schema([pa.field("x", pa.int64(), nullable=False), pa.field("y", pa.float64(), nullable=False)])
+
+    def stream(schema: pa.Schema, batches: list[pa.RecordBatch]) -> bytes:
+        b = io.BytesIO()
+        with pa.ipc.new_stream(b, schema) as w:
+            for x in batches:
+                w.write_batch(x)
+        return b.getvalue()
+
+    one = pa.RecordBatch.from_pydict({"x": [3], "y": [1.5]}, schema=sch)
+    if content == "d:valid":
+        return stream(sch, [one])
+    if content == "d:no-batch":
+        return stream(sch, [])
+    if content == "d:empty-bytes":
+        return b""
+    if content == "d:garbage":
+        return b"\x13\x37" * 40
+    if content == "d:schema-only-truncated":
+        return stream(sch, [])[:-8]
+    if content == "d:two-batches":
+        return stream(sch, [one, one])
+    if content == "d:zero-rows":
+        return stream(sch, [one.slice(0, 0)])
+    if content == "d:two-rows":
+        return stream(sch, [pa.RecordBatch.from_pydict({"x": [3, 4], "y": [1.5, 2.5]}, schema=sch)])
+    if content == "d:other-schema":
+        return stream(pa.schema([pa.field("x", pa.utf8()), pa.field("y", pa.utf8())]), [pa.RecordBatch.from_pydict({"x": ["a"], "y": ["b"]})])
+    if content == "d:missing-field":
+        return stream(pa.schema([pa.field("x", pa.int64())]), [pa.RecordBatch.from_pydict({"x": [3]})])
+    if content == "d:extra-field":
+        s3 = pa.schema([*sch, pa.field("z", pa.int64())])
+        return stream(s3, [pa.RecordBatch.from_pydict({"x": [3], "y": [1.5], "z": [9]}, schema=s3)])
+    if content == "d:null-in-field":
+        s2 = pa.schema([pa.field("x", pa.int64()), pa.field("y", pa.float64())])
+        return stream(s2, [pa.RecordBatch.from_pydict({"x": [None], "y": [1.5]}, schema=s2)])
+    if content == "d:valid-plus-trailing-bytes":
+        return stream(sch, [one]) + b"trailing"
+    if content == "d:eos-only":
+        return b"\xff\xff\xff\xff\x00\x00\x00\x00"
+    raise AssertionError(content)
 
 
 def _s_payload(method: str, content: str) -> tuple[Any, bytes | None]:
@@ -507,6 +581,10 @@ def _s_child(case: dict[str, Any]) -> dict[str, Any]:
     seg = ShmSegment.create(1 << 18)
     try:
         method, content = case["method"], case["content"]
+        if method == "shape":
+            psch = rpc_methods(ShmSvc)["shape"].params_schema
+            inline = pa.RecordBatch.from_arrays([pa.array([_d_value(content)], psch.field("p").type), pa.array([2], pa.int64())], schema=psch)
+            return _s_serve(raw.frame_request("shape", inline), rpc_methods)
         batch, rawbytes = _s_payload(method, content)
         if batch is not None:
             off, ln = seg.allocate_and_write(batch)
@@ -548,27 +626,7 @@ def _s_child(case: dict[str, Any]) -> dict[str, Any]:
             md[b"vgi_rpc.shm_segment_name"] = tiny.name.encode()
             md[b"vgi_rpc.shm_segment_size"] = str(tiny.size).encode()
         req = raw.frame_request(method, pb, metadata=md)
-        probe = raw.frame_request("plain", pa.RecordBatch.from_arrays([pa.array([4242], pa.int64())], schema=rpc_methods(ShmSvc)["plain"].params_schema))
-        ct, st = mem.make_mem_pair()
-        ct.writer.write(req + probe)
-        ct.writer.close()
-        exc = None
-        try:
-            RpcServer(ShmSvc, ShmImpl(), server_id="s").serve(st)
-        except BaseException as e:  # noqa: BLE001
-            exc = f"{type(e).__name__}: {str(e)[:160]}"
-        st.close()
-        data = ct.reader.read()
-        ct.close()
-        out: dict[str, Any] = {"serve_exc": exc, "answers": []}
-        buf = io.BytesIO(data)
-        while buf.tell() < len(data) and len(out["answers"]) < 3:
-            try:
-                c = raw.classify(raw.read_stream(buf))
-                out["answers"].append({"error": None if c["error"] is None else c["error"].get("type"), "data": [list(d.values()) for d in c["data"]][:2]})
-            except Exception as e:  # noqa: BLE001
-                out["answers"].append({"undecodable": f"{type(e).__name__}: {str(e)[:100]}"})
-                break
+        out = _s_serve(req, rpc_methods)
         if tiny is not None:
             tiny.close()
             tiny.unlink()
@@ -579,6 +637,34 @@ def _s_child(case: dict[str, Any]) -> dict[str, Any]:
                 fn()
             except Exception:  # noqa: BLE001
                 pass
+
+
+def _s_serve(req: bytes, rpc_methods: Any) -> dict[str, Any]:
+    """Write request + probe up-front, run the real serve loop to EOF, parse what came back."""
+    from vgi_rpc.rpc import RpcServer
+
+    probe = raw.frame_request("plain", pa.RecordBatch.from_arrays([pa.array([4242], pa.int64())], schema=rpc_methods(ShmSvc)["plain"].params_schema))
+    ct, st = mem.make_mem_pair()
+    ct.writer.write(req + probe)
+    ct.writer.close()
+    exc = None
+    try:
+        RpcServer(ShmSvc, ShmImpl(), server_id="s").serve(st)
+    except BaseException as e:  # noqa: BLE001
+        exc = f"{type(e).__name__}: {str(e)[:160]}"
+    st.close()
+    data = ct.reader.read()
+    ct.close()
+    out: dict[str, Any] = {"serve_exc": exc, "answers": []}
+    buf = io.BytesIO(data)
+    while buf.tell() < len(data) and len(out["answers"]) < 3:
+        try:
+            c = raw.classify(raw.read_stream(buf))
+            out["answers"].append({"error": None if c["error"] is None else c["error"].get("type"), "data": [list(d.values()) for d in c["data"]][:2]})
+        except Exception as e:  # noqa: BLE001
+            out["answers"].append({"undecodable": f"{type(e).__name__}: {str(e)[:100]}"})
+            break
+    return out
 
 
 def one_s(ctx: Ctx, case: dict[str, Any]) -> None:
@@ -639,7 +725,7 @@ def one_s(ctx: Ctx, case: dict[str, Any]) -> None:
         sample={"case": case, "first": first, "probe_ok": probe_ok} if case["content"] in ("valid", "other:large-string+dict") else None,
         nontrivial=("S", tag, kind), outcome=("S", kind, probe_ok, res["serve_exc"] is not None),
     )
-    if case["content"] == "valid" and kind != "ok":
+    if case["content"] in ("valid", "d:valid") and kind != "ok":
         ctx.fail(f"valid-shm-request-refused:{case['method']}", f"{tag}: a valid request routed through the segment was answered {first}", case)
     if first is None or "undecodable" in (first or {}):
         ctx.fail(f"no-answer:shm-content:{case['content']}", f"{tag}: no complete response or typed error stream for the request (got {first}); serve() raised {res['serve_exc']}", case)
